@@ -1,10 +1,10 @@
 SPECIFICATION GSpec
 CONSTANTS
   MaxPool = 4
-  Strategies = {"rr", "fanout", "random"}
-  Keys = {"a", "-"}
-  Pools = {3}
-  Presets = {0, 2}
+  Strategies = {"hash"}
+  Keys = {"a", "b", "-"}
+  Pools = {3, 4}
+  Presets = {0}
   Hi = 65536
   Lo = 65536
   VN = 2
@@ -12,7 +12,7 @@ CONSTANTS
   VTabs <- GenVTabs
   KTabs <- GenKTabs
   Defects = {}
-  Depth = 5
+  Depth = 4
   MaxChurn = 99
   MinAlive = 0
 CONSTRAINT Emit
